@@ -113,12 +113,9 @@ def render_alt(a, ly):
         clauses = merged
     first = True
     for kind, text in clauses:
-        if first and kind != "v":
-            out += ly.ws(1, b" ")          # '[' or '<' directly after a name would be part of the name
-        elif first:
-            out += ly.ws(0, b" ")
-        else:
-            out += ly.ws(0, b" ")
+        # no blank is needed in front of a restriction: "foo[amd64]", "foo<x>" and "foo(>= 1)" are "foo [amd64]", ... (as for
+        # dpkg; until repair 4dd4cdf a name swallowed '[' and '<', and this generator had learned to put a blank there)
+        out += ly.ws(0, b" ")
         out += text
         first = False
     return out
@@ -194,4 +191,10 @@ def malformed(rng):
     out.append(("two-names", name + sp + rng.choice(PKG)))
     out.append(("two-names", name + sp + b"(>= 1)" + sp + rng.choice(PKG)))
     out.append(("two-names", good + b"," + name + sp + rng.choice(PKG) + b", " + good))
+    # ... the first of the two being a substvar (a substvar is a whole alternative), or the second, or both
+    sv = rng.choice([b"${misc:Depends}", b"${a}", b"${shlibs:Depends}"])
+    out.append(("two-names", sv + ly.ws(rng.randrange(2)) + rng.choice(PKG)))
+    out.append(("two-names", sv + ly.ws(rng.randrange(2)) + rng.choice([b"${b}", b"(>= 1)", b"[amd64]", b"<x>", b":any"])))
+    out.append(("two-names", name + sp + sv))
+    out.append(("two-names", good + b", " + sv + sp + rng.choice(PKG) + b" | " + good))
     return out
